@@ -11,6 +11,7 @@ import (
 	"fmt"
 	"math"
 	"os"
+	"strings"
 	"sync/atomic"
 
 	"github.com/ctessum/geom"
@@ -49,6 +50,10 @@ var srs = []srDef{
 	// a latitude of 95 degrees and fails in the first leg
 	{"longlat/bessel7p", "+proj=longlat +ellps=bessel +towgs84=577.326,90.129,463.919,5.137,1.474,5.297,2.4232", [][2]float64{{10, 50}, {13.3, 47.5}, {10, 95}}},
 	{"longlat/intl3p", "+proj=longlat +ellps=intl +towgs84=-87,-98,-121", [][2]float64{{10, 50}, {13.3, 47.5}, {10, 95}}},
+	// a datum given by a grid file (not supported: every transformation into or out of it fails, after the
+	// geocentric first leg) and a shifted-datum Mercator that shares the other references with it
+	{"longlat/clrk66+nadgrids", "+proj=longlat +ellps=clrk66 +nadgrids=@conus", [][2]float64{{-100, 40}, {-90, 35}}},
+	{"merc/bessel7p", "+proj=merc +lon_0=0 +ellps=bessel +towgs84=577.326,90.129,463.919,5.137,1.474,5.297,2.4232", [][2]float64{{400000, 6800000}, {-1200000, 5000000}}},
 }
 
 func try(f func()) (p string) {
@@ -160,20 +165,20 @@ func main() {
 		return
 	}
 	rep := report.New("C10", tier, "model_checking")
-	rep.Rule = "E2 (stateless, no dedup: closure-captured state cannot be fingerprinted): ALL sequences of up to 4 (thorough 5) operations Build(i,j) / Call(slot, point) over two sets of 5 (6) spatial references parsed once per sequence (set A: 7-parameter tmerc/OSGB36, 3-parameter lcc/potsdam, the registered EPSG:4326 (and EPSG:3857), long/lat with +axis=neu and with +axis=wsu on a 7-parameter datum; set B: three UTM references of which two share a zone on different ellipsoids/datums, EPSG:4326, krovak; set C: Mercator and transverse Mercator pairs that differ only by an omitted +lon_0 / +x_0, EPSG:4326); set D: EPSG:4326, EPSG:3857, a Mercator and a Mercator on the authalic sphere (+R_A) with a third, out-of-domain point each - the pole fails towards Mercator, so sequences contain failing calls, repeated failing calls and calls after a failure); set E: two geographic systems on shifted datums and EPSG:4326 with a latitude of 95 degrees as third point (it fails in the first leg of the WGS84 hop); results (error or coordinates) must be bit-identical, two (set D: three) points per reference; every call must return what a freshly built transformer from freshly parsed definitions returns when called once; the reference values are recomputed after the sweep to detect changes of the registered globals. E1: structure trees of all eight types (vertices on a parabola, so that rings have area) x transformers {nil, affine, orientation-reversing affine, fail on the k-th call for every k <= Len}: same type and nesting (*Bounds -> 4-vertex polygon), i-th vertex = t(i-th vertex), input unchanged, error returned, no panic; the same with the input cut from one flat vertex buffer (same output, buffer not written, twice), and the output shares no storage with the input. Non-trivial = sequences that call some transformer at least twice or interleave two transformers."
+	rep.Rule = "E2 (stateless, no dedup: closure-captured state cannot be fingerprinted): ALL sequences of up to 4 (thorough 5) operations Build(i,j) / Call(slot, point) over two sets of 5 (6) spatial references parsed once per sequence (set A: 7-parameter tmerc/OSGB36, 3-parameter lcc/potsdam, the registered EPSG:4326 (and EPSG:3857), long/lat with +axis=neu and with +axis=wsu on a 7-parameter datum; set B: three UTM references of which two share a zone on different ellipsoids/datums, EPSG:4326, krovak; set C: Mercator and transverse Mercator pairs that differ only by an omitted +lon_0 / +x_0, EPSG:4326); set D: EPSG:4326, EPSG:3857, a Mercator and a Mercator on the authalic sphere (+R_A) with a third, out-of-domain point each - the pole fails towards Mercator, so sequences contain failing calls, repeated failing calls and calls after a failure); set E: two geographic systems on shifted datums and EPSG:4326 with a latitude of 95 degrees as third point (it fails in the first leg of the WGS84 hop); set F: EPSG:4326, a geographic system whose datum is a grid file (+nadgrids=@conus on Clarke 1866: every call fails after the geocentric leg) and a 7-parameter Bessel Mercator; results (error or coordinates) must be bit-identical, two (set D: three) points per reference; every call must return what a freshly built transformer from freshly parsed definitions returns when called once; the reference values are recomputed after the sweep to detect changes of the registered globals. E1: structure trees of all eight types (vertices on a parabola, so that rings have area; plus members of 1025, 4098 and 5003 (thorough: 16385, 65539) vertices in every flat and nested position, failing call k in {1, 2, n/4+1, n/2, n-1, n} there) x transformers {nil, affine, orientation-reversing affine, fail on the k-th call for every k <= Len}: same type and nesting (*Bounds -> 4-vertex polygon), i-th vertex = t(i-th vertex), input unchanged, error returned, no panic; the same with the input cut from one flat vertex buffer (same output, buffer not written, twice), and the output shares no storage with the input. Non-trivial = sequences that call some transformer at least twice or interleave two transformers."
 	// (set, depth) pairs: every sequence up to the depth is enumerated over each set
 	type plan struct {
 		use   []int
 		depth int
 		npts  int // points per reference (3: incl. the out-of-domain point; the pole fails towards Mercator)
 	}
-	plans := []plan{{[]int{0, 1, 2, 4, 5}, 4, 2}, {[]int{6, 8, 9, 2, 7}, 4, 2}, {[]int{10, 11, 12, 13, 2}, 4, 2}, {[]int{2, 3, 10, 14}, 4, 3}, {[]int{15, 16, 2}, 4, 3}}
+	plans := []plan{{[]int{0, 1, 2, 4, 5}, 4, 2}, {[]int{6, 8, 9, 2, 7}, 4, 2}, {[]int{10, 11, 12, 13, 2}, 4, 2}, {[]int{2, 3, 10, 14}, 4, 3}, {[]int{15, 16, 2}, 4, 3}, {[]int{2, 17, 18}, 4, 2}}
 	if tier == "thorough" {
 		plans = []plan{
 			{[]int{0, 1, 2, 3, 4, 5}, 4, 2}, {[]int{6, 8, 9, 2, 7, 3}, 4, 2},
 			{[]int{10, 11, 12, 13, 2, 3}, 4, 2},
 			{[]int{0, 1, 2, 5}, 5, 2}, {[]int{6, 8, 9, 2}, 5, 2}, {[]int{0, 6, 3, 4}, 5, 2}, {[]int{1, 7, 8, 5}, 5, 2}, {[]int{10, 11, 12, 13}, 5, 2},
-			{[]int{2, 3, 10, 14}, 5, 3}, {[]int{15, 16, 2}, 5, 3},
+			{[]int{2, 3, 10, 14}, 5, 3}, {[]int{15, 16, 2}, 5, 3}, {[]int{2, 17, 18, 1}, 5, 2},
 		}
 	}
 	ref := map[[3]int]val{}
@@ -192,7 +197,8 @@ func main() {
 					ref[key] = v
 					if v.pan != "" {
 						rep.Violation("fresh-transformer|panic", map[string]interface{}{"from": srs[key[0]].name, "to": srs[key[1]].name, "point": srs[key[0]].pts[key[2]], "panic": v.pan})
-					} else if v.err && key[0] != key[1] && k < 2 {
+					} else if v.err && key[0] != key[1] && k < 2 && !strings.Contains(srs[key[0]].def+srs[key[1]].def, "+nadgrids=@conus") {
+						// (grid files are not supported: those calls are meant to fail)
 						rep.Violation("fresh-transformer|error", map[string]interface{}{"from": srs[key[0]].def, "to": srs[key[1]].def, "point": srs[key[0]].pts[key[2]]})
 					}
 				}
@@ -256,6 +262,24 @@ func main() {
 			skels = append(skels, s)
 		}
 	}
+	// long members (a thousand to sixty-five thousand vertices, lengths that are no
+	// multiple of 2, 4 or 8), alone and next to short ones
+	bigN := []int{1025, 4098, 5003}
+	if tier == "thorough" {
+		bigN = []int{1025, 4098, 5003, 16385, 65539}
+	}
+	for _, n := range bigN {
+		ring := func(n int) geomgen.Skel { return geomgen.Skel{Kind: geomgen.KRing, N: n} }
+		line := func(n int) geomgen.Skel { return geomgen.Skel{Kind: geomgen.KLineString, N: n} }
+		skels = append(skels,
+			line(n),
+			geomgen.Skel{Kind: geomgen.KMultiPoint, N: n},
+			geomgen.Skel{Kind: geomgen.KMultiLineString, Kids: []geomgen.Skel{line(3), line(n), line(2)}},
+			geomgen.Skel{Kind: geomgen.KPolygon, Kids: []geomgen.Skel{ring(n), ring(4)}},
+			geomgen.Skel{Kind: geomgen.KMultiPolygon, Kids: []geomgen.Skel{{Kind: geomgen.KPolygon, Kids: []geomgen.Skel{ring(3)}}, {Kind: geomgen.KPolygon, Kids: []geomgen.Skel{ring(n)}}}},
+			geomgen.Skel{Kind: geomgen.KCollection, Kids: []geomgen.Skel{line(n), {Kind: geomgen.KPoint}, {Kind: geomgen.KMultiPoint, N: n + 1}}},
+		)
+	}
 	var ngeom int64
 	boom := errors.New("transformer failed")
 	enum.Parallel(len(skels), rep.Expired, func(si int) {
@@ -271,7 +295,14 @@ func main() {
 		// a second map with a negative determinant (it reverses the winding of every ring)
 		mirror := func(x, y float64) (float64, float64, error) { return 5 - x, 2*y - 3, nil }
 		viol := func(sym string, det interface{}) {
-			rep.Violation(fmt.Sprintf("Transform|%s|%s", s.Kind, sym), map[string]interface{}{"geometry": fmt.Sprintf("%#v", g), "skeleton": s.String(), "observed": det})
+			gs := "vertex i = (i, i*i+10*i), i = 1.. in storage order"
+			if n <= 64 {
+				gs = fmt.Sprintf("%#v", g)
+			}
+			if n > 64 {
+				sym += "|long-members"
+			}
+			rep.Violation(fmt.Sprintf("Transform|%s|%s", s.Kind, sym), map[string]interface{}{"geometry": gs, "skeleton": s.String(), "observed": det})
 		}
 		expectType := func(in, out geom.Geom) bool {
 			if _, ok := in.(*geom.Bounds); ok {
@@ -356,6 +387,9 @@ func main() {
 		}
 		// fail on the k-th call
 		for k := 1; k <= n; k++ {
+			if n > 64 && k > 2 && k < n-1 && k != n/2 && k != n/4+1 {
+				continue
+			}
 			calls := 0
 			ft := func(x, y float64) (float64, float64, error) {
 				calls++
